@@ -449,13 +449,19 @@ func c09exec(c *Ctx, w *c09world, t, i int, op c09op) {
 	case 5:
 		_ = l.Sync()
 	case 6:
-		switch op.b % 4 {
+		switch op.b % 6 {
 		case 0:
 			w.lvl.SetLevel(lv)
 		case 1:
 			_ = w.lvl.Level()
 		case 2:
 			_ = w.lvl.Enabled(lv)
+		case 4:
+			// the textual setters, through the one variable every task uses (a
+			// configuration reload next to readers)
+			_ = w.lvl.UnmarshalText([]byte(lv.String()))
+		case 5:
+			_, _ = w.lvl.MarshalText()
 		default:
 			_ = w.lvl.String()
 		}
